@@ -407,7 +407,15 @@ func c12Bandwidth(c *C12BW, r *core.Rec) {
 	scale := 1.06 * math.Pow(n, -0.2)
 	wantSilver := scale * sd
 	wantScott := scale * math.Min(sd, iqr/1.349)
-	if g := stats.BandwidthSilverman(s); !r.Err("Silverman", math.Abs(g-wantSilver)/wantSilver, 1e-12) {
+	// s and IQR carry the conditioning of the data: a stable variance algorithm is accurate to
+	// about n eps kappa with kappa = sqrt(1 + mean^2/var) (the same bound C09 uses), a quantile
+	// difference to eps max|x|/IQR
+	tolS := 1e-12 + 8*n*ref.Eps*m.CondVar
+	tolScott := tolS
+	if iqr > 0 {
+		tolScott += 8 * ref.Eps * m.MaxAbs / iqr
+	}
+	if g := stats.BandwidthSilverman(s); !r.Err("Silverman", math.Abs(g-wantSilver)/wantSilver, tolS) {
 		r.Fail("Silverman", "BandwidthSilverman(%v)=%v want %v", trunc(c.Xs), g, wantSilver)
 	}
 	g := stats.BandwidthScott(s)
@@ -417,7 +425,7 @@ func c12Bandwidth(c *C12BW, r *core.Rec) {
 		}
 		return
 	}
-	if !r.Err("Scott", math.Abs(g-wantScott)/wantScott, 1e-12) {
+	if !r.Err("Scott", math.Abs(g-wantScott)/wantScott, tolScott) {
 		r.Fail("Scott", "BandwidthScott(%v)=%v want %v", trunc(c.Xs), g, wantScott)
 	}
 	// zero Bandwidth selects Scott's rule: state {unset} --first call--> {set}
@@ -584,5 +592,24 @@ func c12Run(c *core.Ctx) {
 			})
 		}
 	}
-	r.Bound("bandwidth", "the KDE samples plus every multiset of size 4..9 over {0,0.3,1,2.5} and {1,5,9}")
+	// the same rules on shifted and rescaled data (timestamps, micro-units): every multiset
+	// of size 4..6 over {0,0.3,1,2.5} at offsets 2^17, 2^24, 2^30 and scales 1e-6, 1e6
+	for _, tr := range [][2]float64{{1, 0x1p17}, {1, 0x1p24}, {1, 0x1p30}, {1e-6, 0}, {1e6, 0}, {1e-6, 1}} {
+		alpha := []float64{0, 0.3, 1, 2.5}
+		for size := 4; size <= 6; size++ {
+			enum.Multisets(size, len(alpha), func(ms []int) {
+				if !c.Mine() {
+					return
+				}
+				xs := make([]float64, 0, size)
+				for _, k := range ms {
+					xs = append(xs, alpha[k]*tr[0]+tr[1])
+				}
+				bc.Xs = riffle(xs)
+				r.Case("bandwidth", bc)
+				r.Try(func() { c12Bandwidth(bc, r) })
+			})
+		}
+	}
+	r.Bound("bandwidth", "the KDE samples plus every multiset of size 4..9 over {0,0.3,1,2.5} and {1,5,9}, and of size 4..6 at 3 offsets and 3 scales")
 }
